@@ -72,4 +72,58 @@ theorem line4_normalise (num denom c Pjoint Pcond : Rat) (hc : c ≠ 0) (hnum : 
     (hden : denom * c = Pcond) : num / denom = Pjoint / Pcond := by
   rw [← hnum, ← hden, mul_div_mul_right _ _ hc]
 
+/-- the symbols (name, star) an event gives to names: event values and subscripts -/
+def eventSyms (q : Event) : List Iv :=
+  q.flatMap fun p => (match p.2 with | some i => [(⟨p.1.name, i.star⟩ : Iv)] | none => []) ++ p.1.ivs
+
+/-- **`readingExists` is what it says**: if no name receives two different value symbols, then for every reading `ν`
+of the value symbols some valuation carries the event's values -/
+theorem eventReading_exists (q : Event) (hval : ∀ p ∈ q, ∀ i, p.2 = some i → i.name = p.1.name)
+    (h : readingExists q = true) (ν : BaseValues) : ∃ σ, EventReading ν σ q := by
+  have hall : ∀ a ∈ eventSyms q, ∀ b ∈ eventSyms q, a.name = b.name → a.star = b.star := by
+    intro a ha b hb hab
+    have h' : (eventSyms q).all (fun a => (eventSyms q).all fun b => a.name != b.name || a.star == b.star) = true := h
+    rw [List.all_eq_true] at h'
+    have h1 := h' a ha
+    rw [List.all_eq_true] at h1
+    have h2 := h1 b hb
+    simp only [Bool.or_eq_true, bne_iff_ne, ne_eq, beq_iff_eq] at h2
+    rcases h2 with h2 | h2
+    · exact absurd hab h2
+    · exact h2
+  let σ : Y0.Val := fun n => match (eventSyms q).find? (fun a => a.name == n) with
+    | some a => ν n a.star
+    | none => 0
+  have hσ : ∀ b ∈ eventSyms q, σ b.name = ν b.name b.star := by
+    intro b hb
+    show (match (eventSyms q).find? (fun a => a.name == b.name) with
+      | some a => ν b.name a.star
+      | none => 0) = _
+    cases hf : (eventSyms q).find? (fun a => a.name == b.name) with
+    | none =>
+      rw [List.find?_eq_none] at hf
+      exact absurd (by simp) (hf b hb)
+    | some a =>
+      have ha := List.mem_of_find?_eq_some hf
+      have han : a.name = b.name := by simpa using List.find?_some hf
+      simp only
+      rw [hall a ha b hb han]
+  refine ⟨σ, ⟨?_, ?_⟩⟩
+  · intro p hp i hi
+    have hmem : (⟨p.1.name, i.star⟩ : Iv) ∈ eventSyms q := by
+      unfold eventSyms
+      rw [List.mem_flatMap]
+      exact ⟨p, hp, by rw [hi]; simp⟩
+    have := hσ _ hmem
+    simp only at this
+    rw [this]
+    show ν p.1.name i.star = ν i.name i.star
+    rw [hval p hp i hi]
+  · intro p hp i hi
+    have hmem : i ∈ eventSyms q := by
+      unfold eventSyms
+      rw [List.mem_flatMap]
+      exact ⟨p, hp, List.mem_append_right _ hi⟩
+    exact hσ i hmem
+
 end Y0.CtfTr
